@@ -7,6 +7,7 @@ import core
 import decode_checks
 import pair_checks
 import track_checks
+import reader_checks
 
 
 def decode_check(prop, tier, seed, rep):
@@ -19,6 +20,9 @@ CHECKS = {p: decode_check for p in ("C01", "C02", "C03", "C04", "C06", "C07", "C
 CHECKS["C05"] = pair_checks.run
 for _p in ("C12", "C13", "C14", "C15"):
     CHECKS[_p] = track_checks.run
+
+
+CHECKS["C19"] = reader_checks.run
 
 
 def setup():
